@@ -68,6 +68,80 @@ func EncryptSeg(plaintext []byte, armored bool, seg []int, recipients ...age.Rec
 	return buf.Bytes(), nil
 }
 
+// plainReader hides every optional interface of a source (WriterTo, Seeker…)
+// so io.Copy must use the destination's ReadFrom if it has one, else Reads.
+type plainReader struct{ r io.Reader }
+
+func (p plainReader) Read(b []byte) (int, error) { return p.r.Read(b) }
+
+// Hand-over modes for EncryptVia: how the plaintext reaches the WriteCloser
+// returned by age.Encrypt.
+const (
+	ViaWrite      = "write"       // one Write
+	ViaCopyPlain  = "copy-plain"  // io.Copy from a source with no WriterTo (a file, a pipe): uses the writer's ReadFrom if any
+	ViaCopyBuffer = "copy-buffer" // io.Copy from a bytes.Reader: its WriteTo calls Write once
+	ViaCopy1K     = "copy-1k"     // io.CopyBuffer with a 1000-byte buffer from a plain source
+	ViaCopy64K    = "copy-64k"    // io.CopyBuffer with a reused 64 KiB buffer from a plain source
+	ViaReadFrom   = "readfrom"    // call ReadFrom directly if the writer has it (else as copy-plain)
+)
+
+// Vias lists the hand-over modes.
+var Vias = []string{ViaWrite, ViaCopyPlain, ViaCopyBuffer, ViaCopy1K, ViaCopy64K, ViaReadFrom}
+
+// EncryptVia runs Encrypt, hands the plaintext over in the given mode, and
+// closes. It returns the bytes at the destination.
+func EncryptVia(plaintext []byte, armored bool, via string, recipients ...age.Recipient) ([]byte, error) {
+	var buf bytes.Buffer
+	var dst io.Writer = &buf
+	var aw io.WriteCloser
+	if armored {
+		aw = armor.NewWriter(&buf)
+		dst = aw
+	}
+	w, err := age.Encrypt(dst, recipients...)
+	if err != nil {
+		return nil, fmt.Errorf("Encrypt: %w", err)
+	}
+	var n int64
+	switch via {
+	case ViaWrite:
+		var m int
+		m, err = w.Write(plaintext)
+		n = int64(m)
+	case ViaCopyPlain:
+		n, err = io.Copy(w, plainReader{bytes.NewReader(plaintext)})
+	case ViaCopyBuffer:
+		n, err = io.Copy(w, bytes.NewReader(plaintext))
+	case ViaCopy1K:
+		n, err = io.CopyBuffer(onlyWriter{w}, plainReader{bytes.NewReader(plaintext)}, make([]byte, 1000))
+	case ViaCopy64K:
+		n, err = io.CopyBuffer(onlyWriter{w}, plainReader{bytes.NewReader(plaintext)}, make([]byte, 65536))
+	case ViaReadFrom:
+		if rf, ok := w.(io.ReaderFrom); ok {
+			n, err = rf.ReadFrom(plainReader{bytes.NewReader(plaintext)})
+		} else {
+			n, err = io.Copy(w, plainReader{bytes.NewReader(plaintext)})
+		}
+	default:
+		return nil, fmt.Errorf("verif: unknown hand-over mode %q", via)
+	}
+	if err != nil {
+		return nil, fmt.Errorf("%s: %w", via, err)
+	}
+	if n != int64(len(plaintext)) {
+		return nil, fmt.Errorf("%s reported %d of %d bytes with nil error", via, n, len(plaintext))
+	}
+	if err := w.Close(); err != nil {
+		return nil, fmt.Errorf("Close: %w", err)
+	}
+	if aw != nil {
+		if err := aw.Close(); err != nil {
+			return nil, fmt.Errorf("armor Close: %w", err)
+		}
+	}
+	return buf.Bytes(), nil
+}
+
 // Result of a decryption: the bytes released before the first error and that
 // error (io.EOF for a clean end). DecErr is the error of age.Decrypt itself,
 // in which case no reader was returned.
